@@ -76,6 +76,88 @@ Definition extra_cmd (ps : pstate_) (toks : list str) : option (pstate_ * str) :
       | _ => Some (ps, err)
       end
     else if tok_is c "swapf" then Some (exec idna ops ps (lit "swap" :: args))
+    else if tok_is c "move" || tok_is c "safe_assign" || tok_is c "swap" then
+      (* an object moved / safe-assigned / swapped onto ITSELF is left as it is (Spec.Proto.exec refuses d = s) *)
+      match args with
+      | [td; ts] => match slot_of td, slot_of ts with
+                    | Some d, Some s => if (d =? s)%nat then Some (ps, c ++ sp_ (st_str ops ps d) ++ lit " | " ++ st_str ops ps d) else None
+                    | _, _ => None end
+      | _ => None
+      end
+    else if tok_is c "fmt" then
+      (* stream insertion of a getter's view with a field width: "[" setw(w) adjust fill hostname "][" setw(3) 7 "]"
+         - formatted output pads to the width, and the width applies to one item only *)
+      match args with
+      | [ts; tw; tl] =>
+          match slot_of ts with
+          | Some s =>
+              match s_url (get_slot (ps_store ps) s) with
+              | None => Some (ps, lit "fmt skipped")
+              | Some u =>
+                  let left := tok_is tl "l" in
+                  let padto (w : nat) (t : str) : str :=
+                    let fillc := repeat 42 (w - length t)%nat in
+                    if left then t ++ fillc else fillc ++ t in
+                  Some (ps, lit "fmt " ++ hx ([91] ++ padto (N.to_nat (dec_of tw)) (get_hostname u) ++ [93; 91] ++ padto 3%nat [55] ++ [93]))
+              end
+          | None => Some (ps, err)
+          end
+      | _ => Some (ps, err)
+      end
+    else if tok_is c "parse_selfbase" then
+      (* u.parse(input, u.href()): the base STRING is a view of the object's own serialization *)
+      match args with
+      | [ts; ta] =>
+          match slot_of ts, parse_arg ta with
+          | Some s, Some (e, units) =>
+              let sl := get_slot (ps_store ps) s in
+              match s_url sl with
+              | None => Some (ps, lit "parse skipped")      (* href() of an invalid object is outside every property *)
+              | Some u =>
+                  let bu := Spec.Api.do_parse ops EU8 (serialize u false) None in
+                  match bu with
+                  | None => Some (ps, lit "parse fail" ++ sp_ (st_str ops ps s))
+                  | Some _ =>
+                      let r := Spec.Api.do_parse ops e units (Some bu) in
+                      let ps' := put ps s (slot_after_parse sl r) in
+                      Some (ps', lit "parse " ++ (if is_some r then lit "ok" else lit "fail") ++ sp_ (st_str ops ps' s))
+                  end
+              end
+          | _, _ => Some (ps, err)
+          end
+      | _ => Some (ps, err)
+      end
+    else if tok_is c "usp_selfname" then
+      (* an operation whose name argument is a view of the first n bytes of the name of the i-th pair of the
+         same object: usp_selfname <k> <op> <i> <n> [value token] *)
+      match args with
+      | tk :: top :: ti :: tn :: rest =>
+          match slot_of tk with
+          | Some k =>
+              let l := get_usp ps k in
+              match nth_error l (N.to_nat (dec_of ti)) with
+              | None => Some (ps, lit "usp skipped")
+              | Some (nm, _) =>
+                  let name := utf8_decode (firstn (N.to_nat (dec_of tn)) (utf8_encode nm)) in
+                  let op := match rest with
+                            | [] => if tok_is top "has" then Some (OpHas name) else if tok_is top "get" then Some (OpGet name)
+                                    else if tok_is top "getall" then Some (OpGetAll name) else if tok_is top "del" then Some (OpDel name)
+                                    else if tok_is top "remove" then Some (OpRemove name) else None
+                            | [tv] => match parse_arg tv with
+                                      | Some a => if tok_is top "set" then Some (OpSet name (scalars_of a)) else if tok_is top "has2" then Some (OpHas2 name (scalars_of a))
+                                                  else if tok_is top "del2" then Some (OpDel2 name (scalars_of a)) else None
+                                      | None => None end
+                            | _ => None end in
+                  match op with
+                  | None => Some (ps, err)
+                  | Some op => let '(l', _, extra) := apply_spop l op in
+                               Some (set_usp ps k l', lit "usp" ++ sp_ (usp_state_str l') ++ extra)
+                  end
+              end
+          | None => Some (ps, err)
+          end
+      | _ => Some (ps, err)
+      end
     else if tok_is c "setself" then
       (* a setter called with the view one of the object's OWN getters returned (the argument aliases the
          object's string): the Standard's setter applied to the text that getter had *)
